@@ -108,9 +108,25 @@ def main():
     acc, div = mechtrace.validate_mech("T_WriterChain.tla", "T_WriterChain.cfg", [("chain", f1)], os.path.join(wdir, "mech"), "wf1")
     log("[selftest] untouched writer dropped before its turn (pre-F1 behaviour): accepted=%d (expected 0)" % acc)
     ok &= acc == 0
+    # listening socket: a hand-written history in the order of the code is a behaviour of mech/ServerLife; the same
+    # with the wake-up connection in front of the flag (seeded change C20-7), with a client refused while the server
+    # is alive, and with an accept on an empty queue, are not
+    good = [{"ev": "Reset"}, {"ev": "check"}, {"ev": "connect", "ok": True}, {"ev": "accept"}, {"ev": "check"}, {"ev": "flag"},
+            {"ev": "wakeconn", "ok": True}, {"ev": "dropped"}, {"ev": "accept"}, {"ev": "exit"}, {"ev": "connect", "ok": False}]
+    acc, div = mechtrace.validate_mech("T_ServerLife.tla", "T_ServerLife.cfg", [("life", good)], os.path.join(wdir, "mech"), "slbase")
+    log("[selftest] listening-socket history in code order: accepted=%d (expected 1)" % acc)
+    ok &= acc == 1
+    for what, bad in (("wake-up connection before the close flag", [good[0]] + good[1:5] + [good[6], good[5]] + good[7:]),
+                      ("client refused while the server is alive", good[:2] + [{"ev": "connect", "ok": False}] + good[3:]),
+                      ("accept on an empty queue", good[:2] + [{"ev": "accept"}] + good[2:]),
+                      ("accept thread leaving its loop before the flag is set", good[:5] + [{"ev": "exit"}] + good[5:])):
+        acc, div = mechtrace.validate_mech("T_ServerLife.tla", "T_ServerLife.cfg", [("life", bad)], os.path.join(wdir, "mech"), "slbad")
+        log("[selftest] listening-socket history with %s: accepted=%d (expected 0)" % (what, acc))
+        ok &= acc == 0
     # vacuity: coverage of the mechanism configurations
     for name, cfg, mod in (("MsgQueue_quick", "MsgQueue_quick.cfg", "MC_MsgQueue.tla"), ("TaskPool_c20_quick", "TaskPool_c20_quick.cfg", "../mech/TaskPool.tla"),
-                           ("WriterChain_quick", "WriterChain_quick.cfg", "MC_WriterChain.tla"), ("ReaderChain_free", "ReaderChain_free.cfg", "MC_ReaderChain.tla")):
+                           ("WriterChain_quick", "WriterChain_quick.cfg", "MC_WriterChain.tla"), ("ReaderChain_free", "ReaderChain_free.cfg", "MC_ReaderChain.tla"),
+                           ("ServerLife_quick", "ServerLife_quick.cfg", "../mech/ServerLife.tla")):
         rc, out, wall = vlib.tlc("cov_" + name, cfg, mod, os.path.join(vlib.SPECS, "mc"), workers=4, timeout=900, extra=["-coverage", "1"])
         zero = re.findall(r"<(\w+) line \d+, col \d+ to line \d+, col \d+ of module \w+>: 0:0", out)
         acts = re.findall(r"<(\w+) line \d+, col \d+ to line \d+, col \d+ of module \w+>: (\d+):(\d+)", out)
